@@ -261,8 +261,11 @@ def run_batch(mapping, docs, workdir):
     d2 = os.path.join(workdir, "whole")
     shutil.rmtree(d2, ignore_errors=True)
     os.makedirs(d2)
+    os.makedirs(os.path.join(d2, "sub", "deeper"))
     for k, (tag, doc) in enumerate(docs):
-        with open(os.path.join(d2, f"f{k:05d}.json"), "w",
+        # files spread over nested directories (the source walks the tree)
+        sub = ("", "sub", os.path.join("sub", "deeper"))[k % 3]
+        with open(os.path.join(d2, sub, f"f{k:05d}.json"), "w",
                   encoding="utf-8") as f:
             json.dump(doc, f, indent=1, ensure_ascii=False)
     src = JSONDataSource(JSONDataSourceConfig(
